@@ -119,7 +119,7 @@ ProcessPos(s, ev, ln) ==
       hasRt == Has(ev, "fen2")
       rtBad == IF ~hasRt THEN {} ELSE
                (IF ev.fen2 # ev.fen THEN {"fen"} ELSE {}) \cup (IF ~ev.eq THEN {"equality"} ELSE {}) \cup
-               (IF ev.pl2 # ev.pl THEN {"pieces"} ELSE {}) \cup (IF ev.key2 # ev.key \/ ev.pkey2 # ev.pkey THEN {"keys"} ELSE {})
+               (IF Has(ev, "pl") /\ ev.pl2 # ev.pl THEN {"pieces"} ELSE {}) \cup (IF ev.key2 # ev.key \/ ev.pkey2 # ev.pkey THEN {"keys"} ELSE {})
       vRt == IF rtBad = {} THEN <<>> ELSE <<V(ln, "C16", "fen_roundtrip", ev.fen, [differs |-> rtBad, fen2 |-> ev.fen2])>>
       viol == vFen \o vLegal \o vPred \o vKey \o vUndo \o vRepr \o vHist \o vRt
       bumps == {"pos", "fen_cmp"} \cup (IF hasMoves THEN {"legal_cmp"} ELSE {}) \cup (IF doPred THEN {"pred_cmp"} ELSE {})
